@@ -89,6 +89,11 @@ def run(ctx):
     s1cases += [{'cmask': 0, 'amask': 0x0c, 'opts': ['-n']}, {'cmask': 0x4c, 'amask': 0, 'opts': ['-j']}, {'cmask': 0, 'amask': 0, 'opts': ['-n', '-v']}, {'cmask': 0x80, 'amask': 0x01, 'opts': ['-n']}]
     if not q:
         s1cases += [{'cmask': m, 'amask': (m * 2) & 0x7e or 2, 'opts': ['-n']} for m in range(1, 128)]
+    # the two masks are independent fields: pairs with the SAME value (a decoder that caches by mask value would answer the second from the first),
+    # complementary pairs and pairs shifted by one bit
+    rel = [0x48, 0x28, 0x7e, 0x02, 0x44, 0x0c] if q else list(range(2, 128, 2))
+    s1cases += [{'cmask': m, 'amask': m, 'opts': OPTS[i % len(OPTS)]} for i, m in enumerate(rel)]
+    s1cases += [{'cmask': m, 'amask': (~m) & 0x7e, 'opts': OPTS[(i + 1) % len(OPTS)]} for i, m in enumerate(rel[:3] if q else rel)]
 
     def do(z, c):
         L = c['lists']
